@@ -200,11 +200,11 @@ func runGen(prop, tier string, chunk int, rep *Report) (ok, nontrivial, units in
 			if cl.Class != nil {
 				class = cl.Class(r.Task.From)
 			}
-			rep.add("process-died|"+class, "the worker process hosting the emulator died (fatal error / out of memory / no progress) while running case "+name, map[string]any{"case": r.Task.From, "name": name})
+			rep.add("process-died|"+class, "the worker process hosting the emulator died (fatal error / out of memory / no progress) while running case "+name, map[string]any{"case": r.Task.From, "tier": tier, "name": name})
 			continue
 		}
 		for i, v := range r.Viol {
-			rep.add(v.Sig, v.Detail, map[string]any{"case": r.VIdx[i], "trace": v.Trace})
+			rep.add(v.Sig, v.Detail, map[string]any{"case": r.VIdx[i], "tier": tier, "name": cl.Name(r.VIdx[i]), "trace": v.Trace})
 			rep.findings[v.Sig].Count += r.VCount[v.Sig] - 1
 		}
 	}
